@@ -78,8 +78,11 @@ Section Spec.
 
   Definition expand_spec (p : ustr) : ustr := concat (map sem (segments p)).
 
-  (* ---- the known-finding class: forged references ----
-     The code substitutes one variable at a time, in the order in which their references
+  (* the text a segment stands for in the path *)
+  Definition seg_text (sg : seg) : ustr := match sg with Lit c => [c] | Ref n => raw n end.
+
+  (* ---- analysis of the PRE-FIX algorithm only (Proofs/EnvExpandOld.v): forged references ----
+     The old code substituted one variable at a time, in the order in which their references
      first occur, with a replace-all on the text rewritten so far.  `out_d done sgs` is the
      path after the variables in `done` have been substituted the one-pass way.  A forged
      occurrence of the reference to `n` is an occurrence of its text in that string that
